@@ -141,7 +141,9 @@ class VQESolver:
                 if self.ansatz in [BuiltInAnsatze.QCC, BuiltInAnsatze.ILC, BuiltInAnsatze.QMF]:
                     raise ValueError("Circuit reference state is not supported for QCC or QMF")
             elif self.ref_state is not None:
-                self.ansatz_options["reference_state"] = "zero"
+                # QCC, ILC and QMF absorb the vector in their own mean-field parameters (they only know the "HF" keyword)
+                if self.ansatz not in [BuiltInAnsatze.QCC, BuiltInAnsatze.ILC, BuiltInAnsatze.QMF]:
+                    self.ansatz_options["reference_state"] = "zero"
                 if self.ansatz in [BuiltInAnsatze.QCC, BuiltInAnsatze.ILC]:
                     self.ansatz_options["qmf_var_params"] = agen._qubit_mf.init_qmf_from_vector(self.ref_state, self.qubit_mapping, self.up_then_down)
                     self.ref_state = None
